@@ -53,30 +53,35 @@ theorem flowdemux_rule (c : FlowDemuxCfg) (p : Pkt) (hf : 0 ≤ p.flowId) :
 /-! ### FIBDemux -/
 
 /-- **FIBDemux: the flow's end device if registered; otherwise the output the table names; otherwise (unknown flow) the
-default output, else nowhere; at most one output gets the packet.**  The table clauses are stated for a non-empty output
-list (with `outs` `None` or `[]` the code's `assert self.outs` escapes as `AssertionError`). -/
+default output, else nowhere; at most one output gets the packet.**  This holds for every output list, `None` and the
+empty list included: without output devices every flow that has no end device is an unknown flow. -/
 theorem fibdemux_rule (c : FIBDemuxCfg) (fib : List (Int × Int)) (p : Pkt) (hfib : c.fib = some fib) :
     (∀ d, dget c.ends p.flowId = some d → FIBDemux.put c p = .ok [(d, p.ref)]) ∧
-    (∀ outs, c.outs = some outs → outs ≠ [] → dget c.ends p.flowId = none →
-      (∀ port d, dget fib p.flowId = some port → 0 ≤ port → outs[port.toNat]? = some d →
+    (dget c.ends p.flowId = none →
+      (∀ outs port d, c.outs = some outs → dget fib p.flowId = some port → 0 ≤ port → outs[port.toNat]? = some d →
         FIBDemux.put c p = .ok [(d, p.ref)]) ∧
       (dget fib p.flowId = none →
+        FIBDemux.put c p = .ok (match c.default with
+          | some d => [(d, p.ref)]
+          | none => [])) ∧
+      ((c.outs = none ∨ c.outs = some []) →
         FIBDemux.put c p = .ok (match c.default with
           | some d => [(d, p.ref)]
           | none => []))) ∧
     (∀ l, FIBDemux.put c p = .ok l → l.length ≤ 1 ∧ ∀ x ∈ l, x.2 = p.ref) := by
   refine ⟨fun d hd => FIBDemux.put_end c fib p d hfib hd, ?_, fun l h => FIBDemux.put_atMostOne c p l h⟩
-  intro outs houts hne hends
-  exact ⟨fun port d hport h0 hd => FIBDemux.put_table c fib p outs port d hfib houts hends hport h0 hd,
-    fun hnone => FIBDemux.put_unknown c fib p outs hfib houts hne hends hnone⟩
+  intro hends
+  exact ⟨fun outs port d houts hport h0 hd => FIBDemux.put_table c fib p outs port d hfib houts hends hport h0 hd,
+    fun hnone => FIBDemux.put_unknown c fib p hfib hends hnone,
+    fun houts => FIBDemux.put_noOutputs c fib p hfib hends houts⟩
 
-/-- **The empty table is a valid table**: every flow without an end device is unknown and goes to the default output. -/
-theorem fibdemux_empty_table (c : FIBDemuxCfg) (p : Pkt) (hfib : c.fib = some []) (outs : List Dev)
-    (houts : c.outs = some outs) (hne : outs ≠ []) (hends : dget c.ends p.flowId = none) :
+/-- **The empty table is a valid table**: every flow without an end device is unknown and goes to the default output
+(else nowhere), whatever the output list. -/
+theorem fibdemux_empty_table (c : FIBDemuxCfg) (p : Pkt) (hfib : c.fib = some []) (hends : dget c.ends p.flowId = none) :
     FIBDemux.put c p = .ok (match c.default with
       | some d => [(d, p.ref)]
       | none => []) :=
-  ((fibdemux_rule c [] p hfib).2.1 outs houts hne hends).2 rfl
+  ((fibdemux_rule c [] p hfib).2.1 hends).2.1 rfl
 
 /-! ### the packet switches -/
 
@@ -106,12 +111,7 @@ theorem switch_one_output (n : Nat) (p : Pkt) (hf : 0 ≤ p.flowId) :
     have rule := fibdemux_rule c fib p hfib
     refine ⟨fun l h => (rule.2.2 l h).1, rule.1, ?_⟩
     intro hends port hport h0 hlt
-    have hne : List.range n ≠ [] := by
-      intro e
-      have := congrArg List.length e
-      simp at this
-      omega
-    exact ((rule.2.1 _ houts' hne hends).1 port port.toNat hport h0 (by simp [hlt]))
+    exact (rule.2.1 hends).1 _ port port.toNat houts' hport h0 (by simp [hlt])
 
 /-! ### Hub -/
 
@@ -166,8 +166,10 @@ theorem hub_constructor (eps : List (Nat × Dev)) (ports : List (Option Dev))
 /-- **A splitter gives the original to its first output and a separate copy, whose header fields can be changed
 independently, to each other output**: with outputs `o :: rest` (unset ones skipped) the first output, if set, receives the
 object that was put; every other set output receives exactly one object, in order; those objects are copies of the same
-packet, all different from the original and from each other; right after the dispatch each carries the original's header,
-and writing a header field through one of them leaves the header seen through any other unchanged. -/
+packet, all different from the original and from each other.  On the heap (the entering packet owning its `perhop_time` and
+`priorities` tables): right after the dispatch each delivered object carries the original's field values and tables with
+the original's contents; and for two different delivered objects, rebinding a field of one, or writing **in place** into
+one of its tables, changes neither the fields nor the tables seen through the other. -/
 theorem splitter_rule (o : Option Dev) (rest : List (Option Dev)) (p : Pkt) (fresh : Nat) (hf : p.ref.copy < fresh) :
     ∃ cs : List Delivery,
       NSplitter.put (o :: rest) p fresh = .ok ((match o with | some d => [(d, p.ref)] | none => []) ++ cs) ∧
@@ -175,8 +177,16 @@ theorem splitter_rule (o : Option Dev) (rest : List (Option Dev)) (p : Pkt) (fre
       (∀ x ∈ cs, x.2 ≠ p.ref ∧ x.2.id = p.ref.id) ∧
       (∀ l, NSplitter.put (o :: rest) p fresh = .ok l →
         (l.map (·.2)).Nodup ∧
-        (∀ (h : Heap), ∀ x ∈ l, splitHeap h p.ref l x.2 = h p.ref) ∧
-        (∀ (H : Heap), ∀ x ∈ l, ∀ y ∈ l, x.2 ≠ y.2 → ∀ f v, (H.setField x.2 f v) y.2 = H y.2)) := by
+        ∀ (h : Heap) (ob : Obj), h.objs p.ref = some ob → (∀ w, ob.tab w = (p.ref, w)) →
+          (∀ x ∈ l, (∀ f, (splitHeap h p.ref l).readField x.2 f = h.readField p.ref f) ∧
+            ∀ w k, (splitHeap h p.ref l).readTab x.2 w k = h.readTab p.ref w k) ∧
+          (∀ x ∈ l, ∀ y ∈ l, x.2 ≠ y.2 →
+            (∀ f v g, ((splitHeap h p.ref l).setField x.2 f v).readField y.2 g = (splitHeap h p.ref l).readField y.2 g) ∧
+            (∀ f v w k, ((splitHeap h p.ref l).setField x.2 f v).readTab y.2 w k = (splitHeap h p.ref l).readTab y.2 w k) ∧
+            (∀ w k v w' k', ((splitHeap h p.ref l).tabWrite x.2 w k v).readTab y.2 w' k'
+              = (splitHeap h p.ref l).readTab y.2 w' k') ∧
+            (∀ w k v g, ((splitHeap h p.ref l).tabWrite x.2 w k v).readField y.2 g
+              = (splitHeap h p.ref l).readField y.2 g))) := by
   refine ⟨giveCopies p.ref fresh rest, ?_, giveCopies_devs _ _ _, ?_, ?_⟩
   · cases o <;> rfl
   · intro x hx
@@ -189,9 +199,27 @@ theorem splitter_rule (o : Option Dev) (rest : List (Option Dev)) (p : Pkt) (fre
     simp only [NSplitter.put, Except.ok.injEq] at hl
     subst hl
     have hn := split_refs_nodup o rest p fresh hf
-    refine ⟨hn, fun h => splitHeap_copy h p.ref _ hn, ?_⟩
-    intro H x _ y _ hne f v
-    exact Heap.setField_other H x.2 y.2 f v (fun e => hne e.symm)
+    refine ⟨hn, ?_⟩
+    intro h ob ho hown
+    have spec := splitHeap_spec h p.ref ob _ ho hown hn
+    refine ⟨?_, ?_⟩
+    · intro x hx
+      obtain ⟨s1, s2⟩ := spec x hx
+      refine ⟨fun f => by simp [Heap.readField, s1, ho], fun w k => ?_⟩
+      simp only [Heap.readTab, s1, ho, Option.map_some, s2, hown]
+    · intro x hx y hy hne
+      obtain ⟨sx, _⟩ := spec x hx
+      obtain ⟨sy, _⟩ := spec y hy
+      have so := Heap.setField_other (splitHeap h p.ref (giveOriginal o p ++ giveCopies p.ref fresh rest)) x.2 y.2
+      refine ⟨?_, ?_, ?_, ?_⟩
+      · intro f v g
+        simp only [Heap.readField, (so f v (fun e => hne e.symm)).1]
+      · intro f v w k
+        simp only [Heap.readTab, (so f v (fun e => hne e.symm)).1, (so f v (fun e => hne e.symm)).2]
+      · intro w k v w' k'
+        exact (Heap.tabWrite_other _ x.2 y.2 _ _ sx sy w w' (by simp [hne]) k k' v).1
+      · intro w k v g
+        exact (Heap.tabWrite_other _ x.2 y.2 _ _ sx sy w w (by simp [hne]) k 0 v).2 g
 
 /-- `Splitter` is the two-output case, and `NSplitter(N)` always has a first output slot (`N ≥ 2`). -/
 theorem splitter_is_two_way (c : SplitterCfg) (p : Pkt) (fresh : Nat) :
@@ -482,9 +510,19 @@ example :
       (fun st => (walk (fun n => nexthopOf st n 0) 5 0, walk (fun n => nexthopOf st n 10000) 5 2, portOf st 1 0, portOf st 2 7))
       = some ([0, 1, 2], [2, 1, 0], some 1, some 0) := by decide
 
-/-- a FIBDemux with a non-empty output list, an **empty table** and a default output (hypotheses of `fibdemux_empty_table`) -/
+/-- a FIBDemux with an **empty table** and a default output (hypotheses of `fibdemux_empty_table`), with and without outputs -/
 example : FIBDemux.put { outs := some [5, 6], ends := [(3, 9)], fib := some [], default := some 8 } { ref := ⟨1, 0⟩, flowId := 4 }
     = .ok [(8, ⟨1, 0⟩)] := by decide
+
+example : FIBDemux.put { outs := none, ends := [(3, 9)], fib := some [], default := some 8 } { ref := ⟨1, 0⟩, flowId := 4 }
+    = .ok [(8, ⟨1, 0⟩)] := by decide
+
+/-- a heap in which the entering packet owns its two tables (hypothesis of `splitter_rule`), with a stamp already in one -/
+example : ∃ (h : Heap) (ob : Obj), h.objs ⟨1, 0⟩ = some ob ∧ (∀ w, ob.tab w = (⟨1, 0⟩, w)) ∧
+    h.readTab ⟨1, 0⟩ .perhop 7 = some (some 3) :=
+  ⟨{ objs := fun r => if r = ⟨1, 0⟩ then some ⟨fun _ => 0, fun w => (⟨1, 0⟩, w)⟩ else none,
+     tabs := fun t k => if t = (⟨1, 0⟩, Tab.perhop) ∧ k = 7 then some 3 else none },
+   ⟨fun _ => 0, fun w => (⟨1, 0⟩, w)⟩, by simp, fun _ => rfl, by simp [Heap.readTab]⟩
 
 /-- hub endpoints with pairwise different output devices, two of them sharing an element id (hypothesis of `hub_rule`) -/
 example : (([⟨1, 10, none⟩, ⟨2, 11, some 20⟩, ⟨1, 12, none⟩] : HubCfg).map HubEndpoint.out).Nodup := by decide
